@@ -33,7 +33,7 @@ throttle}` joined by a wire; the fetcher is the C08 model, `store_replicated_in_
 namespace SafeNet.Props.C09
 open SafeNet.Replication SafeNet.Gen.Replication
 open SafeNet.Validate (Content Store union)
-open SafeNet.Fetcher (Entry admits hasKT hasKTH addKeys nextKeys newPut addCore)
+open SafeNet.Fetcher (Entry admits hasKT hasKTH addKeys nextKeys newPut addCore earlyDone)
 set_option linter.unusedSimpArgs false
 
 /-! ## (3) only close holders are heard -/
@@ -186,11 +186,12 @@ theorem every_due_candidate_served (w : World) (i : Nat) (nd nd' : NodeSt) (tg :
 
 /-! ## (1) immutable data replicates -/
 
-/-- `k` is the only advertised key the receiver neither holds with the advertised type nor has queued from this holder
-(and that is not beyond its farthest acceptable distance): the single-new-key fast path of `add_keys` applies.
-This is the situation right after an upload (fresh-record replication) and of one diverging mutable record. -/
+/-- a single-record advertisement whose record `k` the receiver neither holds with the advertised type nor has queued from
+this holder (and that is not beyond its farthest acceptable distance): the single-key fast path of `add_keys` applies.
+This is the situation right after an upload (fresh-record replication). (A multi-record list with one new key no longer
+takes the fast path — C08 `range_respected_multi_advert`; such lists are the subject of the round / phase theorems.) -/
 def OnlyNew (w : World) (dst : Nat) (nd : NodeSt) (src : Nat) (adv : List (Nat × Nat)) (k t : Nat) : Prop :=
-  adv.filter (admits (w.kdist dst) nd.fetcher (indexOf nd.store) src) = [(k, t)]
+  adv.filter (admits (w.kdist dst) nd.fetcher (indexOf nd.store) src) = [(k, t)] ∧ adv.length = 1
 
 /-- fast path: the only new key of an advertisement from a heard holder is scheduled at once (any legal or illegal
 choice witness) unless that very version is already in flight -/
@@ -213,17 +214,20 @@ theorem single_new_scheduled (w : World) (dst src : Nat) (nd : NodeSt) (adv : Li
   show ∃ e ∈ (addKeys dist s src adv locals choice).2.ret, _
   rw [hx]
   rcases SafeNet.Fetcher.addCore_cases dist s src adv locals with ⟨p, hp, hk, _⟩ | ⟨p, hp, _, hc⟩ | ⟨hlen, _⟩
-  · have : SafeNet.Fetcher.newOf dist s locals src adv = [(k, t)] := honly
+  · have : SafeNet.Fetcher.newOf dist s locals src adv = [(k, t)] := honly.1
     rw [this] at hp
     obtain rfl : (k, t) = p := by simpa using hp
     rw [hog] at hk; cases hk
-  · have : SafeNet.Fetcher.newOf dist s locals src adv = [(k, t)] := honly
+  · have : SafeNet.Fetcher.newOf dist s locals src adv = [(k, t)] := honly.1
     rw [this] at hp
     obtain rfl : (k, t) = p := by simpa using hp
     rw [hc]
     exact ⟨SafeNet.Fetcher.fastEntry s src (k, t), List.mem_append_left _ (List.mem_singleton.2 rfl), rfl, rfl, rfl⟩
-  · have : SafeNet.Fetcher.newOf dist s locals src adv = [(k, t)] := honly
-    rw [this] at hlen; exact absurd rfl hlen
+  · have : SafeNet.Fetcher.newOf dist s locals src adv = [(k, t)] := honly.1
+    rw [this] at hlen
+    rcases hlen with hlen | hlen
+    · exact absurd rfl hlen
+    · exact absurd honly.2 hlen
 
 /-- Accepting: a chunk fetched through replication by a node that lacks it is stored under its key, as the holder's
 content (chunks are content-addressed: key and content determine the bytes); other keys are untouched.
@@ -235,10 +239,10 @@ theorem immutable_accepted (w : World) (b : Nat) (nb : NodeSt) (k : Nat) (choice
     (∀ c, nb.store.get k = some c → (nodeRsp w b nb k .chunk choice).1.store = nb.store) := by
   constructor
   · intro hl
-    simp only [nodeRsp, replWrites_chunk_absent nb.store k hk hl, putLocal]
+    simp only [nodeRsp_store, replWrites_chunk_absent nb.store k hk hl]
     exact ⟨get_put_same _ _ _, fun k' hk' => get_put_other _ _ _ _ hk'⟩
   · intro c hc
-    simp only [nodeRsp, replWrites_chunk_held nb.store k c hk hc]
+    simp only [nodeRsp_store, replWrites_chunk_held nb.store k c hk hc]
 
 /-- **Immutable data replicates.** Node `a` holds the chunk `k`, neighbour `b` lacks it, hears `a`, and `k` is the only
 new key of `a`'s advertisement (fresh-record replication; for longer lists C08 `multi_key_takeup` gives queued-or-in-flight).
@@ -303,7 +307,7 @@ theorem scratchpad_accept_partial (w : World) (b : Nat) (nb : NodeSt) (k n m : N
     (hk : k % 3 = 1) (hheld : nb.store.get k = some (.pad m v)) (hnew : m < n) :
     (nodeRsp w b nb k (.pad n true) choice).1.store.get k = some (.pad n true) := by
   have : ¬ n ≤ m := by omega
-  simp only [nodeRsp, replWrites_pad_held nb.store k n m v hk hheld, this, if_false, putLocal]
+  simp only [nodeRsp_store, replWrites_pad_held nb.store k n m v hk hheld, this, if_false]
   exact get_put_same _ _ _
 
 /-! ## (3') the SENDER of an advertisement: nobody can speak for a close peer
@@ -417,11 +421,11 @@ theorem lost_fetch_pruned (w : World) (dst src : Nat) (nd : NodeSt) (adv : List 
   let loc := indexOf nd.store
   obtain ⟨X, hst, hret, _⟩ := addKeys_shape' dist s src adv loc choice
   have hcf := SafeNet.Fetcher.addCore_fields dist s src adv loc
-  have hnew : SafeNet.Fetcher.newOf dist s loc src adv = [(k, t)] := honly
+  have hnew : SafeNet.Fetcher.newOf dist s loc src adv = [(k, t)] := honly.1
   -- the stale entry survives `remove_stored_keys`: the advertised version is not held
   have hadm : admits dist s loc src (k, t) = true := by
     have : (k, t) ∈ adv.filter (admits dist s loc src) := by
-      rw [show adv.filter (admits dist s loc src) = [(k, t)] from honly]; exact List.mem_singleton.2 rfl
+      rw [show adv.filter (admits dist s loc src) = [(k, t)] from honly.1]; exact List.mem_singleton.2 rfl
     exact (List.mem_filter.1 this).2
   have hnotheld : loc.lookup k ≠ some t := by
     intro hh
@@ -465,7 +469,10 @@ theorem lost_fetch_pruned (w : World) (dst src : Nat) (nd : NodeSt) (adv : List 
   · rw [hnew] at hp
     obtain rfl : (k, t) = p := by simpa using hp
     rw [hog] at hk'; cases hk'
-  · rw [hnew] at hlen; exact absurd rfl hlen
+  · rw [hnew] at hlen
+    rcases hlen with hlen | hlen
+    · exact absurd rfl hlen
+    · exact absurd honly.2 hlen
 
 /-- **Retry after a lost fetch, step 2 — eventual fetch.** After that pruning advertisement, the next single-key
 advertisement of the record (same store, from any heard holder `src'`) schedules the fetch: two advertisements after
@@ -547,7 +554,7 @@ theorem exchange_txs (w : World) (src dst : Nat) (ns nd : NodeSt) (k : Nat) (ia 
   have hfetched : (nodeRsp w dst (nodeRep w dst nd src (indexOf ns.store) c1).1 k (.txs ia) c2).1.store.get k
       = some (.txs (union ia ib)) := by
     have hd' : (nodeRep w dst nd src (indexOf ns.store) c1).1.store.get k = some (.txs ib) := by rw [hst]; exact hd
-    simp only [nodeRsp, replWrites_txs _ k ia hk hne ib (Or.inl hd'), putLocal]
+    simp only [nodeRsp_store, replWrites_txs _ k ia hk hne ib (Or.inl hd')]
     exact get_put_same _ _ _
   unfold exchange
   simp only [serve, hs]
@@ -574,13 +581,13 @@ theorem exchange_reg (w : World) (src dst : Nat) (ns nd : NodeSt) (k : Nat) (alt
       = some (.reg alt (union oa ob)) := by
     have hd' : (nodeRep w dst nd src (indexOf ns.store) c1).1.store.get k = some (.reg alt ob) := by rw [hst]; exact hd
     by_cases hany : (oa.any fun o => !ob.contains o) = true
-    · simp only [nodeRsp, replWrites_reg_held _ k alt oa ob hk hd', hany, if_true, putLocal]
+    · simp only [nodeRsp_store, replWrites_reg_held _ k alt oa ob hk hd', hany, if_true]
       exact get_put_same _ _ _
     · have hsub : ∀ x ∈ oa, x ∈ ob := by
         intro x hx
         simp only [List.any_eq_true, Bool.not_eq_true', not_exists, not_and] at hany
         simpa using hany x hx
-      simp only [nodeRsp, replWrites_reg_held _ k alt oa ob hk hd', hany, if_false, Bool.false_eq_true]
+      simp only [nodeRsp_store, replWrites_reg_held _ k alt oa ob hk hd', hany, if_false, Bool.false_eq_true]
       rw [hd', union_of_subset hcb hsub]
   unfold exchange
   simp only [serve, hs]
@@ -898,6 +905,13 @@ theorem holders_put (dist : Nat → Nat) (P : Nat → Prop) (f : SafeNet.Fetcher
   apply holders_next
   exact ⟨fun e he => h.1 e (List.mem_filter.1 he).1, fun e he => h.2 e (List.mem_filter.1 he).1⟩
 
+theorem holders_early (dist : Nat → Nat) (P : Nat → Prop) (f : SafeNet.Fetcher.State) (k t : Nat) (c : List Entry)
+    (h : HoldersIn P f) :
+    HoldersIn P (earlyDone dist f k t c).1 ∧ ∀ e ∈ (earlyDone dist f k t c).2.ret, P e.holder := by
+  unfold earlyDone
+  apply holders_next
+  exact ⟨fun e he => h.1 e (List.mem_filter.1 he).1, fun e he => h.2 e (List.mem_filter.1 he).1⟩
+
 theorem holders_add (dist : Nat → Nat) (P : Nat → Prop) (f : SafeNet.Fetcher.State) (hd : Nat)
     (inc loc : List (Nat × Nat)) (c : List Entry) (h : HoldersIn P f) (hp : P hd) :
     HoldersIn P (addKeys dist f hd inc loc c).1 ∧ ∀ e ∈ (addKeys dist f hd inc loc c).2.ret, P e.holder := by
@@ -1015,10 +1029,23 @@ theorem nodeRsp_holders (w : World) (i : Nat) (nd : NodeSt) (k : Nat) (c : Conte
     (h : HoldersIn (fun h => heard w i h = true) nd.fetcher) :
     HoldersIn (fun h => heard w i h = true) (nodeRsp w i nd k c choice).1.fetcher ∧
     ∀ e ∈ (nodeRsp w i nd k c choice).2.1.ret, heard w i e.holder = true := by
-  unfold nodeRsp
+  unfold nodeRsp nodeRspWith
+  simp only []
   split
-  · exact ⟨h, fun e he => by cases he⟩
-  · exact putLocal_holders w i nd _ _ choice h
+  · split
+    · exact holders_early (w.kdist i) _ nd.fetcher k (tyOf c) choice h
+    · exact ⟨h, fun e he => by cases he⟩
+  · rename_i k' c' _ _
+    split
+    · obtain ⟨a1, a2⟩ := holders_put (w.kdist i) (fun h => heard w i h = true) nd.fetcher k' (tyOf c') (choicePut choice) h
+      obtain ⟨b1, b2⟩ := holders_early (w.kdist i) (fun h => heard w i h = true) _ k (tyOf c) (choiceDone choice) a1
+      refine ⟨?_, ?_⟩
+      · cases nd.range <;> exact b1
+      · intro e he
+        rcases List.mem_append.1 he with he | he
+        · exact a2 e he
+        · exact b2 e he
+    · exact putLocal_holders w i nd _ _ choice h
 
 theorem interval_fetcher (w : World) (i : Nat) (nd : NodeSt) : (interval w i nd).1.fetcher = nd.fetcher := by
   unfold interval
@@ -1162,12 +1189,13 @@ theorem only_close_holders_heard_always (w : World) (n : Nat) (ops : List Op) :
 /-! ## non-vacuity -/
 
 def naEx : NodeSt := { store := [(0, .chunk), (2, .reg false [0, 1]), (4, .txs [0])] }
+def naEx1 : NodeSt := { store := [(2, .reg false [0, 1])] }
 def nbEx : NodeSt := { store := [(0, .chunk), (2, .reg false [1, 2]), (4, .txs [0])] }
 
-/-- the hypotheses of `mutable_converge_partial_reg` hold for two nodes that share a chunk and a transaction set and
-hold diverging versions of one register -/
+/-- the hypotheses of `mutable_converge_partial_reg` hold for two nodes holding diverging versions of one register, the
+advertiser holding that register only (a single-record list: the fast path) -/
 example : heard padWorld 1 0 = true ∧ heard padWorld 0 1 = true ∧
-    OnlyNew padWorld 1 nbEx 0 (indexOf naEx.store) 2 (tyOf (.reg false [0, 1])) ∧
+    OnlyNew padWorld 1 nbEx 0 (indexOf naEx1.store) 2 (tyOf (.reg false [0, 1])) ∧
     hasKT nbEx.fetcher.ogf 2 (tyOf (.reg false [0, 1])) = false ∧ Canon [0, 1] ∧ Canon [1, 2] := by
   refine ⟨by decide, by decide, by unfold OnlyNew; decide, by decide, ?_, ?_⟩ <;> simp [Canon]
 
@@ -1328,6 +1356,155 @@ theorem big_advert_replicates_partial_chunk (w : World) (dst src : Nat) (nodes :
     rcases hv with rfl | rfl <;> simp [verChunk]
   rw [hsome _ hko, hj, SafeNet.Replication.Abs.isSome_join, Bool.or_eq_true, ← hsome _ (hkey src), ← hsome _ (hkey dst)]
 
+open SafeNet.Replication.Abs in
+/-- **(a′) Transaction sets, with no bound on the copies that change nothing.** As `big_advert_converge_partial_txs` with
+`hroom` replaced by `hacc`: every fetched copy is accepted by the requester (`store_replicated_in_record` returns Ok —
+true of every copy an honest holder of a compatible record serves). Since the fetch task reports every accepted copy as
+complete, stored or not, no slot stays blocked: the queue drains, and when the last reply has been processed nothing is in
+flight except timed-out leftovers of earlier phases. -/
+theorem big_advert_converge_txs (w : World) (dst src : Nat) (nodes : Nat → NodeSt) (k : Nat) (hk : k % 3 = 1)
+    (hwf : ∀ i, StoreWF (nodes i).store) (hkey : ∀ i, TxKey k (nodes i)) (hq : StaleQuiet (nodes dst).fetcher)
+    (c : List Entry) (rsps : List Ev) (hr : ∀ ev ∈ rsps, ev.isRsp = true)
+    (hlen : ((indexOf (nodes src).store).filter
+      (admits (w.kdist dst) (nodes dst).fetcher (indexOf (nodes dst).store) src)).length ≤ rsps.length)
+    (hok : PhaseOk w dst nodes ⟨nodes dst, [], []⟩ (.adv src c :: rsps))
+    (hacc : Accepted w dst nodes ⟨nodes dst, [], []⟩ (.adv src c :: rsps)) :
+    let fin := runEvs w dst nodes ⟨nodes dst, [], []⟩ (.adv src c :: rsps)
+    fin.pending = [] ∧ fin.nd.fetcher.tbf = [] ∧ (∀ o ∈ fin.nd.fetcher.ogf, o.deadline ≤ (nodes dst).fetcher.now) ∧
+    verTx (fin.nd.store.get k) = join (verTx ((nodes src).store.get k)) (verTx ((nodes dst).store.get k)) ∧
+    TxKey k fin.nd :=
+  cascade_join_accepted w dst nodes k verTx OkTx (lawTx k hk) hwf hkey hq src c rsps hr hlen hok hacc
+
+open SafeNet.Replication.Abs in
+/-- **(a′) Registers.** -/
+theorem big_advert_converge_reg (w : World) (dst src : Nat) (nodes : Nat → NodeSt) (alt : Bool) (k : Nat)
+    (hk : k % 3 = 2)
+    (hwf : ∀ i, StoreWF (nodes i).store) (hkey : ∀ i, RegKey alt k (nodes i)) (hq : StaleQuiet (nodes dst).fetcher)
+    (c : List Entry) (rsps : List Ev) (hr : ∀ ev ∈ rsps, ev.isRsp = true)
+    (hlen : ((indexOf (nodes src).store).filter
+      (admits (w.kdist dst) (nodes dst).fetcher (indexOf (nodes dst).store) src)).length ≤ rsps.length)
+    (hok : PhaseOk w dst nodes ⟨nodes dst, [], []⟩ (.adv src c :: rsps))
+    (hacc : Accepted w dst nodes ⟨nodes dst, [], []⟩ (.adv src c :: rsps)) :
+    let fin := runEvs w dst nodes ⟨nodes dst, [], []⟩ (.adv src c :: rsps)
+    fin.pending = [] ∧ fin.nd.fetcher.tbf = [] ∧ (∀ o ∈ fin.nd.fetcher.ogf, o.deadline ≤ (nodes dst).fetcher.now) ∧
+    verReg alt (fin.nd.store.get k) =
+      join (verReg alt ((nodes src).store.get k)) (verReg alt ((nodes dst).store.get k)) ∧
+    RegKey alt k fin.nd :=
+  cascade_join_accepted w dst nodes k (verReg alt) (OkReg alt) (lawReg alt k hk) hwf hkey hq src c rsps hr hlen hok hacc
+
+/-- **(a′) Immutable data.** -/
+theorem big_advert_replicates_chunk (w : World) (dst src : Nat) (nodes : Nat → NodeSt) (k : Nat) (hk : k % 3 = 0)
+    (hwf : ∀ i, StoreWF (nodes i).store) (hkey : ∀ i, ChunkKey k (nodes i)) (hq : StaleQuiet (nodes dst).fetcher)
+    (c : List Entry) (rsps : List Ev) (hr : ∀ ev ∈ rsps, ev.isRsp = true)
+    (hlen : ((indexOf (nodes src).store).filter
+      (admits (w.kdist dst) (nodes dst).fetcher (indexOf (nodes dst).store) src)).length ≤ rsps.length)
+    (hok : PhaseOk w dst nodes ⟨nodes dst, [], []⟩ (.adv src c :: rsps))
+    (hacc : Accepted w dst nodes ⟨nodes dst, [], []⟩ (.adv src c :: rsps)) :
+    let fin := runEvs w dst nodes ⟨nodes dst, [], []⟩ (.adv src c :: rsps)
+    (fin.nd.store.get k = some .chunk ↔
+      ((nodes src).store.get k = some .chunk ∨ (nodes dst).store.get k = some .chunk)) := by
+  intro fin
+  obtain ⟨_, _, _, hj, hko⟩ := cascade_join_accepted w dst nodes k verChunk OkChunk (lawChunk k hk) hwf hkey hq src c rsps hr hlen hok hacc
+  have hsome : ∀ v, OkChunk v → (v = some .chunk ↔ (verChunk v).isSome = true) := by
+    intro v hv
+    rcases hv with rfl | rfl <;> simp [verChunk]
+  rw [hsome _ hko, hj, SafeNet.Replication.Abs.isSome_join, Bool.or_eq_true, ← hsome _ (hkey src), ← hsome _ (hkey dst)]
+
+/-! ### C08, arrival clause: a fetched record that arrives leaves the in-flight set, whether or not it changes anything -/
+
+/-- whoever a fetcher operation reports has a timed-out fetch registered when the operation starts -/
+theorem step_failed_origin (dist : Nat → Nat) (s : SafeNet.Fetcher.State) (op : SafeNet.Fetcher.Op) (h : Nat)
+    (hh : h ∈ (SafeNet.Fetcher.step dist s op).2.failed) : ∃ o ∈ s.ogf, o.deadline ≤ s.now ∧ o.holder = h := by
+  cases op with
+  | add hd inc loc c => exact Ph.add_failed dist hh
+  | put k t c => exact Ph.put_failed dist hh
+  | early k t c => exact Ph.early_failed dist hh
+  | next c =>
+    have : (SafeNet.Fetcher.step dist s (.next c)).2.failed = SafeNet.Fetcher.failedOf s :=
+      (SafeNet.Fetcher.nextKeys_fields dist s c).2.2.2
+    rw [this] at hh
+    exact Ph.failedOf_mem hh
+  | setRange r => cases hh
+  | full k => cases k <;> cases hh
+  | age d => cases hh
+
+/-- **Every arrival ends the fetch.** A fetched record `(key, c)` arrives at node `i` (any state, any choice witness).
+If `store_replicated_in_record` returns Ok — the record is stored, merged, or changes nothing at all — then afterwards no
+in-flight and no queued entry of the fetcher carries `(key, record type of the fetched bytes)`, the type the holder
+advertised. If it returns an error and writes nothing, the node is unchanged: that fetch leaves the in-flight set by the
+timeout clause (C08 `inflight_leaves_timeout`, `timeout_reports_and_drops`: its holder is reported). -/
+theorem arrived_record_leaves_inflight (w : World) (i : Nat) (nd : NodeSt) (key : Nat) (c : Content) (ch : List Entry) :
+    (replOk nd.store key c = true →
+      (∀ o ∈ (nodeRsp w i nd key c ch).1.fetcher.ogf, ¬(o.key = key ∧ o.ty = tyOf c)) ∧
+      (∀ e ∈ (nodeRsp w i nd key c ch).1.fetcher.tbf, ¬(e.key = key ∧ e.ty = tyOf c))) ∧
+    (replOk nd.store key c = false → replWrites nd.store key c = [] → (nodeRsp w i nd key c ch).1 = nd) := by
+  constructor
+  · intro hok
+    rcases nodeRsp_cases w i nd key c ch with ⟨_, hno, _⟩ | ⟨_, _, _, _, _, h4⟩ |
+      ⟨c', rest, _, _, _, _, _, _, h3, h4, _⟩ | ⟨c', rest, _, hno, _⟩
+    · rw [hok] at hno; cases hno
+    · rw [h4]
+      exact SafeNet.Props.C08.inflight_leaves_early (w.kdist i) nd.fetcher key (tyOf c) ch
+    · rw [h3, h4]
+      exact SafeNet.Props.C08.inflight_leaves_early (w.kdist i) _ key (tyOf c) (choiceDone ch)
+    · rw [hok] at hno; cases hno
+  · intro hno hw
+    rcases nodeRsp_cases w i nd key c ch with ⟨_, _, h1, _⟩ | ⟨_, hyes, _⟩ | ⟨c', rest, hw', _⟩ | ⟨c', rest, hw', _⟩
+    · exact h1
+    · rw [hno] at hyes; cases hyes
+    · rw [hw] at hw'; cases hw'
+    · rw [hw] at hw'; cases hw'
+
+/-- **An honest holder is never reported for a fetch whose record arrived.** When the fetched record `(key, c)` is accepted
+(`store_replicated_in_record` returns Ok), (1) whoever the arrival step itself reports in `FailedToFetchHolders` has
+ANOTHER fetch — not of `(key, type of the fetched bytes)` — that had timed out before the record arrived, and (2) whoever
+the next operation of the fetcher reports has a timed-out fetch of another `(key, type)` registered: the arrived fetch is
+no longer there to time out. (A holder is reported only for fetches that end by the timeout clause.) -/
+theorem honest_holder_never_reported (w : World) (i : Nat) (nd : NodeSt) (key : Nat) (c : Content) (ch : List Entry)
+    (hok : replOk nd.store key c = true) :
+    (∀ h ∈ (nodeRsp w i nd key c ch).2.1.failed, ∃ o ∈ nd.fetcher.ogf,
+      o.holder = h ∧ o.deadline ≤ nd.fetcher.now ∧ ¬(o.key = key ∧ o.ty = tyOf c)) ∧
+    (∀ (op : SafeNet.Fetcher.Op), ∀ h ∈ (SafeNet.Fetcher.step (w.kdist i) (nodeRsp w i nd key c ch).1.fetcher op).2.failed,
+      ∃ o ∈ (nodeRsp w i nd key c ch).1.fetcher.ogf,
+        o.holder = h ∧ o.deadline ≤ (nodeRsp w i nd key c ch).1.fetcher.now ∧ ¬(o.key = key ∧ o.ty = tyOf c)) := by
+  constructor
+  · intro h hh
+    unfold nodeRsp nodeRspWith at hh
+    simp only [notifies, hok, Bool.and_self, if_true] at hh
+    split at hh
+    · -- nothing written: the completion notice removes the entry, then prunes
+      simp only [earlyDone] at hh
+      rw [(SafeNet.Fetcher.nextKeys_fields _ _ _).2.2.2] at hh
+      obtain ⟨o, ho, hd, hho⟩ := Ph.failedOf_mem hh
+      obtain ⟨ho1, ho2⟩ := List.mem_filter.1 ho
+      refine ⟨o, ho1, hho, hd, ?_⟩
+      simp only [SafeNet.Fetcher.sameKT, Bool.not_eq_true', Bool.and_eq_false_imp, beq_iff_eq, beq_eq_false_iff_ne, ne_eq] at ho2
+      exact fun hkt => ho2 hkt.1 hkt.2
+    · rename_i k' c' rest heq
+      have hk : k' = key := replWrites_key nd.store key c (k', c') (by rw [heq]; exact List.mem_cons_self ..)
+      subst hk
+      simp only [] at hh
+      rcases List.mem_append.1 hh with hh | hh
+      · simp only [newPut] at hh
+        rw [(SafeNet.Fetcher.nextKeys_fields _ _ _).2.2.2] at hh
+        obtain ⟨o, ho, hd, hho⟩ := Ph.failedOf_mem hh
+        obtain ⟨ho1, ho2⟩ := List.mem_filter.1 ho
+        refine ⟨o, ho1, hho, hd, ?_⟩
+        simp only [Bool.not_eq_true', beq_eq_false_iff_ne, ne_eq] at ho2
+        exact fun hkt => ho2 hkt.1
+      · -- the second `next_keys_to_fetch` of the step finds nothing timed out: the first one has just pruned
+        exfalso
+        obtain ⟨o, ho, hd, _⟩ := Ph.early_failed _ hh
+        have hlive := SafeNet.Props.C08.inflight_leaves_timeout (w.kdist i) nd.fetcher
+          (.put k' (tyOf c') (choicePut ch)) trivial o ho
+        have hnow := (Ph.put_fields (w.kdist i) nd.fetcher k' (tyOf c') (choicePut ch)).1
+        have hd' : o.deadline ≤ (newPut (w.kdist i) nd.fetcher k' (tyOf c') (choicePut ch)).1.now := hd
+        rw [hnow] at hd'
+        omega
+  · intro op h hh
+    obtain ⟨o, ho, hd, hho⟩ := step_failed_origin (w.kdist i) _ op h hh
+    exact ⟨o, ho, hho, hd, ((arrived_record_leaves_inflight w i nd key c ch).1 hok).1 o ho⟩
+
 /-- **The bound**: `n` new keys take at most `n` reply deliveries — every reply strictly decreases
 "outstanding + queued" (`evStep_rsp_measure`), whatever it contains and whatever batch the fetcher returns; all of it inside
 ONE exchange of the ordered pair (the fair-round bound of `mutable_converge_*` stays 1, 2 with voided exchanges). At no time
@@ -1367,31 +1544,64 @@ def stNodes : Nat → NodeSt := fun i =>
   else { store := (stKeys.take 20).map (fun k => (k, Content.reg false [0, 1])) ++ [(62, .reg false [1])] }
 def stEvs : List Ev := .adv 0 ((stKeys.take 20).map (ent 0 (.reg false [0]))) :: List.replicate 21 (.rsp 0 [])
 
-/-- **Why `hroom` is needed (the F-g side effect at scale).** Node 0 advertises 21 registers to node 1; the 20 closest
-are fetched first and every one of those copies merges to nothing, so no `notify_about_new_put` runs and all 20 slots
-stay occupied until FETCH_TIMEOUT: every hypothesis except `hroom` holds, no reply is outstanding, yet the 21st register
-— the only real difference — is still queued and node 1 still holds its own version. (It is not lost: after FETCH_TIMEOUT
-the next list from node 0 is void and empties the fetcher, `void_exchange_quiets`; the exchange 1 → 0 removes the 20
-no-op keys from later lists.) -/
+/-- **The defect the completion notice repairs, at scale (OLD shape of the fetch task: flag off).** Node 0 advertises 21
+registers to node 1; the 20 closest are fetched first and every one of those copies merges to nothing, so no
+`notify_about_new_put` runs — and, without the completion notice, nobody tells the fetcher: all 20 slots stay occupied until
+FETCH_TIMEOUT, no reply is outstanding, yet the 21st register — the only real difference — is still queued and node 1
+still holds its own version; the honest holder is reported when the slots time out. Reverting the repair in
+`ant-node/src/replication.rs` turns `fetchTaskNotifiesCompletion` to `false`, i.e. `runEvs` into this machine. -/
 theorem big_advert_stall_witness :
-    phaseOkB lineWorld 1 stNodes ⟨stNodes 1, [], []⟩ stEvs = true ∧
-    (runEvs lineWorld 1 stNodes ⟨stNodes 1, [], []⟩ stEvs).pending = [] ∧
-    (runEvs lineWorld 1 stNodes ⟨stNodes 1, [], []⟩ stEvs).nd.fetcher.ogf.length = 20 ∧
-    (runEvs lineWorld 1 stNodes ⟨stNodes 1, [], []⟩ stEvs).nd.fetcher.tbf.map (·.key) = [62] ∧
-    (runEvs lineWorld 1 stNodes ⟨stNodes 1, [], []⟩ stEvs).nd.store.get 62 = some (.reg false [1]) := by
+    phaseOkBWith false lineWorld 1 stNodes ⟨stNodes 1, [], []⟩ stEvs = true ∧
+    (runEvsWith false lineWorld 1 stNodes ⟨stNodes 1, [], []⟩ stEvs).pending = [] ∧
+    (runEvsWith false lineWorld 1 stNodes ⟨stNodes 1, [], []⟩ stEvs).nd.fetcher.ogf.length = 20 ∧
+    (runEvsWith false lineWorld 1 stNodes ⟨stNodes 1, [], []⟩ stEvs).nd.fetcher.tbf.map (·.key) = [62] ∧
+    (runEvsWith false lineWorld 1 stNodes ⟨stNodes 1, [], []⟩ stEvs).nd.store.get 62 = some (.reg false [1]) := by
+  set_option maxRecDepth 100000 in decide
+
+/-- the same advertisement on the repaired machine: the first no-op copy frees its slot, the 21st register is fetched at
+once (`stEvs'` carries that batch as the choice witness of the first reply) and merged; nothing is left in flight or
+queued, every hypothesis of `big_advert_converge_reg` holds -/
+def stEvs' : List Ev :=
+  .adv 0 ((stKeys.take 20).map (ent 0 (.reg false [0]))) :: .rsp 0 [ent 0 (.reg false [0]) 62] :: List.replicate 20 (.rsp 0 [])
+
+theorem big_advert_no_stall_example :
+    phaseOkB lineWorld 1 stNodes ⟨stNodes 1, [], []⟩ stEvs' = true ∧
+    acceptedB lineWorld 1 stNodes ⟨stNodes 1, [], []⟩ stEvs' = true ∧
+    (runEvs lineWorld 1 stNodes ⟨stNodes 1, [], []⟩ stEvs').pending = [] ∧
+    (runEvs lineWorld 1 stNodes ⟨stNodes 1, [], []⟩ stEvs').nd.fetcher.ogf = [] ∧
+    (runEvs lineWorld 1 stNodes ⟨stNodes 1, [], []⟩ stEvs').nd.fetcher.tbf = [] ∧
+    (runEvs lineWorld 1 stNodes ⟨stNodes 1, [], []⟩ stEvs').nd.store.get 62 = some (.reg false [0, 1]) := by
+  set_option maxRecDepth 100000 in decide
+
+/-- node 0 holds 21 registers whose 20 closest have ANOTHER base than node 1's copies: every fetched copy is REJECTED
+(`store_replicated_in_record` returns an error, nothing is reported complete) -/
+def rjNodes : Nat → NodeSt := fun i =>
+  if i = 0 then { store := (stKeys.take 20).map (fun k => (k, Content.reg true [0])) ++ [(62, .reg false [0])] }
+  else { store := (stKeys.take 20).map (fun k => (k, Content.reg false [0, 1])) ++ [(62, .reg false [1])] }
+def rjEvs : List Ev := .adv 0 ((stKeys.take 20).map (ent 0 (.reg true [0]))) :: List.replicate 21 (.rsp 0 [])
+
+/-- **Why `hroom` / `Accepted` is still needed on the repaired machine.** A copy that is REJECTED (here: a register with
+another base) is not a completed fetch: its entry stays until FETCH_TIMEOUT and its holder is then reported — the
+"times out, a timed-out holder being reported" clause. MAX_PARALLEL_FETCH such copies block every slot. -/
+theorem big_advert_rejected_stall_witness :
+    phaseOkB lineWorld 1 rjNodes ⟨rjNodes 1, [], []⟩ rjEvs = true ∧
+    (runEvs lineWorld 1 rjNodes ⟨rjNodes 1, [], []⟩ rjEvs).pending = [] ∧
+    (runEvs lineWorld 1 rjNodes ⟨rjNodes 1, [], []⟩ rjEvs).nd.fetcher.ogf.length = 20 ∧
+    (runEvs lineWorld 1 rjNodes ⟨rjNodes 1, [], []⟩ rjEvs).nd.fetcher.tbf.map (·.key) = [62] ∧
+    (runEvs lineWorld 1 rjNodes ⟨rjNodes 1, [], []⟩ rjEvs).nd.store.get 62 = some (.reg false [1]) := by
   set_option maxRecDepth 100000 in decide
 
 theorem big_advert_always_drains_is_false : ¬ BigAdvertAlwaysDrains := by
   intro h
-  have hw := big_advert_stall_witness
-  have := h lineWorld 1 0 stNodes ((stKeys.take 20).map (ent 0 (.reg false [0]))) (List.replicate 21 (.rsp 0 []))
-    (by intro i; unfold stNodes StoreWF; split <;> decide)
+  have hw := big_advert_rejected_stall_witness
+  have := h lineWorld 1 0 rjNodes ((stKeys.take 20).map (ent 0 (.reg true [0]))) (List.replicate 21 (.rsp 0 []))
+    (by intro i; unfold rjNodes StoreWF; split <;> decide)
     ⟨rfl, rfl, fun e he => by cases he⟩
     (by decide) (by decide) (phaseOkB_sound hw.1)
   have h2 := hw.2.2.2.1
-  rw [show (runEvs lineWorld 1 stNodes ⟨stNodes 1, [], []⟩ stEvs) =
-    runEvs lineWorld 1 stNodes ⟨stNodes 1, [], []⟩
-      (.adv 0 ((stKeys.take 20).map (ent 0 (.reg false [0]))) :: List.replicate 21 (.rsp 0 [])) from rfl, this] at h2
+  rw [show (runEvs lineWorld 1 rjNodes ⟨rjNodes 1, [], []⟩ rjEvs) =
+    runEvs lineWorld 1 rjNodes ⟨rjNodes 1, [], []⟩
+      (.adv 0 ((stKeys.take 20).map (ent 0 (.reg true [0]))) :: List.replicate 21 (.rsp 0 [])) from rfl, this] at h2
   cases h2
 
 open SafeNet.Replication.Abs in
@@ -1704,6 +1914,15 @@ example : ValidP meshWorld3 cNodes cPhases ∧ SafeNet.Replication.Abs.Covers 3 
 #print axioms SafeNet.Props.C09.big_advert_replies_bound
 #print axioms SafeNet.Props.C09.big_advert_stall_witness
 #print axioms SafeNet.Props.C09.big_advert_always_drains_is_false
+#print axioms SafeNet.Props.C09.big_advert_converge_txs
+#print axioms SafeNet.Props.C09.big_advert_converge_reg
+#print axioms SafeNet.Props.C09.big_advert_replicates_chunk
+#print axioms SafeNet.Props.C09.big_advert_no_stall_example
+#print axioms SafeNet.Props.C09.big_advert_rejected_stall_witness
+#print axioms SafeNet.Props.C09.arrived_record_leaves_inflight
+#print axioms SafeNet.Props.C09.honest_holder_never_reported
+#print axioms SafeNet.Replication.cascade_join_accepted
+#print axioms SafeNet.Replication.accepted_phase_room
 #print axioms SafeNet.Props.C09.concurrent_adverts_serial_txs
 #print axioms SafeNet.Props.C09.concurrent_adverts_serial_reg
 #print axioms SafeNet.Props.C09.concurrent_adverts_serial_chunk
